@@ -24,3 +24,5 @@ import RenetVerif.Props.SrcTieRecvUnrel
 import RenetVerif.Props.SrcTieSendRel
 import RenetVerif.Props.SrcTieRecvRel
 import RenetVerif.Props.SrcTieNcPacket
+import RenetVerif.Props.SrcTieNcAddr
+import RenetVerif.Props.SrcTieNcConnToken
